@@ -1,6 +1,8 @@
 #![allow(dead_code)]
 mod c15;
 mod coq;
+mod corpus;
+mod faults;
 mod obs;
 mod reggen;
 mod regprint;
